@@ -467,6 +467,38 @@ def rule_R17_untransmute(text):
     return text, n
 
 
+def rule_R13d_zip(text):
+    """R13d (with `//@ desugar`): `for (A, B) in X.iter().zip(Y.iter()) { BODY }` -> `let mut k = 0; while k < X.len() && k < Y.len()
+    { let A = &X[k]; let B = &Y[k]; BODY k += 1; }` (zip stops at the shorter of the two)."""
+    n = 0
+    while True:
+        m = rsscan.mask(text)
+        hit = None
+        for mt in re.finditer(r'\bfor\s+\(\s*(\w+)\s*,\s*(\w+)\s*\)\s+in\s+', m):
+            if not rsscan.is_stmt_start(m, mt.start(), 0):
+                continue
+            bo = rsscan.find_body_open(m, mt.end())
+            if bo < 0:
+                continue
+            hdr = ''.join(text[mt.end():bo].split())
+            z = re.fullmatch(r'([\w.]+)\.iter\(\)\.zip\(([\w.]+)\.iter\(\)\)', hdr)
+            if z:
+                hit = (mt.start(), bo, z.group(1), z.group(2), mt.group(1), mt.group(2))
+                break
+        if not hit:
+            break
+        a, bo, x, y, av, bv = hit
+        bc = rsscan.match_close(m, bo)
+        k = 'verif_z%d' % n
+        head = 'let mut %s: usize = 0; while %s < %s.len() && %s < %s.len() ' % (k, k, x, k, y)
+        first = '{ let %s = &%s[%s]; let %s = &%s[%s]; ' % (av, x, k, bv, y, k)
+        body = text[bo + 1:bc]
+        new = head + '\n' * text[a:bo].count('\n') + first + body + ' %s += 1; }' % k
+        text = text[:a] + new + text[bc + 1:]
+        n += 1
+    return text, n
+
+
 def annotate_closure(text, k, params, spec):
     """R1 (closures): give the k-th closure literal typed parameters and a requires/ensures clause."""
     m = rsscan.mask(text)
@@ -1167,7 +1199,8 @@ class Generator:
             text, k = rule_R13_desugar(text)
             text, k2 = rule_R13b_chunks(text)
             text, k3 = rule_R13c_chunks_take_enum(text)
-            k2 += k3
+            text, k4 = rule_R13d_zip(text)
+            k2 += k3 + k4
             if k + k2:
                 self._count('R13', k + k2)
                 self.log.append({'rule': 'R13', 'fn': path, 'count': k + k2})
